@@ -65,6 +65,10 @@ var blobberStake = []currency.Coin{25e9, 6e10, 6e10, 6e10}
 var blobberRead = []currency.Coin{1e9, 3e9 + 1, 1e9, 2e9}
 var validatorStake = []currency.Coin{1e10, 1e9} // v1 is below min_stake_per_delegate: its rewards are dropped
 
+// blobberSlash, when >= 0, overrides smart_contracts.storagesc.blobber_slash for the world about to
+// be built (0 = penalties never slash the blobber's stake).
+var blobberSlash = -1.0
+
 func newScen(readPoolFraction float64) *scen {
 	s := &scen{allocID: map[string]string{}, allocOwner: map[string]string{}, types: map[string]string{},
 		freeMarkers: map[string]string{}, paths: map[string]*pinfo{}}
@@ -86,7 +90,11 @@ func newScen(readPoolFraction float64) *scen {
 	// the contract owner (governance key of minersc and storagesc; the wallet free storage is paid from)
 	s.O = world.DetKey("scowner")
 	extra[s.O.ID] = 1e12
-	s.w = world.New(world.Options{NumClients: 4, ExtraFund: extra, SC: map[string]any{
+	scOver := map[string]any{}
+	if blobberSlash >= 0 {
+		scOver[scPrefix+"blobber_slash"] = blobberSlash
+	}
+	s.w = world.New(world.Options{NumClients: 4, ExtraFund: extra, SC: merge(scOver, map[string]any{
 		scPrefix + "owner_id":                        s.O.ID,
 		"smart_contracts.minersc.owner_id":           s.O.ID,
 		scPrefix + "time_unit":                       fmt.Sprintf("%ds", TU),
@@ -105,7 +113,8 @@ func newScen(readPoolFraction float64) *scen {
 		scPrefix + "free_allocation_settings.read_pool_fraction":    readPoolFraction,
 		scPrefix + "free_allocation_settings.read_price_range.max":  1.0,
 		scPrefix + "free_allocation_settings.write_price_range.max": 1.0,
-	}})
+	})})
+	_ = 0
 	for _, l := range [][]*world.Actor{s.B, s.V, s.As, {s.X, s.O}} {
 		for _, a := range l {
 			s.w.Actors[a.Name] = a
@@ -124,6 +133,13 @@ func newScen(readPoolFraction float64) *scen {
 		prev(op, key, obj)
 	}
 	return s
+}
+
+func merge(a, b map[string]any) map[string]any {
+	for k, v := range a {
+		b[k] = v
+	}
+	return b
 }
 
 func (s *scen) actor(name string) *world.Actor {
@@ -397,6 +413,14 @@ func (s *scen) update(ref, from string, size int64, extend bool, add, remove int
 			in["remove_blobber_id"] = s.B[remove].ID
 		}
 		return in, ok
+	})
+}
+
+// setThirdParty: the sender asks to make the allocation extendable by third parties.
+func (s *scen) setThirdParty(ref, from string) chainsim.Action {
+	return s.scCall(fmt.Sprintf("update_allocation_request(%s,%s,set_third_party_extendable)", ref, from), from, "update_allocation_request", 0, nil, 0, func(x *chainsim.Ctx) (any, bool) {
+		id, ok := s.allocRef(x, ref)
+		return map[string]any{"id": id, "set_third_party_extendable": true}, ok
 	})
 }
 
@@ -756,6 +780,26 @@ func (s *scen) rootAWP() []chainsim.Action {
 // per-blobber sizes drift from ceil(total/2).
 func (s *scen) rootAO() []chainsim.Action {
 	return append(s.rootBase(), s.newAllocRootSized("O", "c0", []int{0, 1, 2}, allocSize+1, 5*ZCN))
+}
+
+// rootAWM: allocation A with data on b0 only (every challenge goes to b0), one challenge passed and
+// one failed: b0's pass rate at settlement is strictly between 0 and 1.
+func (s *scen) rootAWM() []chainsim.Action {
+	return append(s.rootA(), s.commit("A", 0, 600<<20, "", 0),
+		s.genChallenge(0), s.challengeResponse("A", 0, "pass", 0, 0),
+		s.genChallenge(0), s.challengeResponse("A", 0, "fail", 0, 0))
+}
+
+// rootAX: allocation A made extendable by third parties by its owner.
+func (s *scen) rootAX() []chainsim.Action {
+	return append(s.rootA(), s.setThirdParty("A", "c0"))
+}
+
+// rootTS: the tiny allocation T with data on b1 only, one challenge generated and failed: the next
+// passed challenge of b1 takes the penalty path.
+func (s *scen) rootTS() []chainsim.Action {
+	return append(s.rootBase(), s.newAllocRootSized("T", "c0", []int{1, 2, 3}, 2*chunk, tinyCost),
+		s.commit("T", 1, 2, "", 0), s.genChallenge(0), s.challengeResponse("T", 0, "fail", 0, 0))
 }
 
 // tinyCost is the price of allocation T: 3 blobbers x one 64 KiB chunk at 1 ZCN/GiB for one time
